@@ -27,6 +27,7 @@ structure ECallRec where
   hadUnmappables : Option Bool
   /-- `max_buffer_length_from_<src>_without_replacement(n)` / `…_if_no_unmappables(n)` asked before the call -/
   q : Option (Option Nat × Option Nat)
+  qx : Option (Nat × (Option Nat × Option Nat)) := none
 
 def parseECall (s : String) : Option ECallRec := do
   let kvs ← (s.splitOn ",").mapM parseKv
@@ -50,7 +51,17 @@ def parseECall (s : String) : Option ECallRec := do
         let a ← parseQ a; let b ← parseQ b
         pure (some (a, b))
       | _ => none
-  pure ⟨n, cap, l == "1", r, rd, w, hp == "1", hu, q⟩
+  let qx ← match get "qx" with
+    | none => some none
+    | some v => match v.splitOn ":" with
+      | [nn, rest] => match rest.splitOn "/" with
+        | [a, b] => do
+          let nn ← nn.toNat?
+          let a ← parseQ a; let b ← parseQ b
+          pure (some (nn, (a, b)))
+        | _ => none
+      | _ => none
+  pure ⟨n, cap, l == "1", r, rd, w, hp == "1", hu, q, qx⟩
 
 def hexOfNat (n : Nat) : String :=
   let rec go : Nat → Nat → List Char
@@ -111,6 +122,10 @@ def runEncHistory (E : EFam) (canAll : Bool) (utf16 repl : Bool) (units : List N
         | none => true
         | some v => maxf c.n == v
       if !qOk then s!"call#{i}: max_buffer_length queries: model={maxf c.n}" else
+      let qxOk := match c.qx with
+        | none => true
+        | some (nn, v) => maxf nn == v
+      if !qxOk then s!"call#{i}: max_buffer_length queries near overflow (n={(c.qx.map (·.1)).getD 0}): model={maxf ((c.qx.map (·.1)).getD 0)}" else
       let r := if repl then checkEncRepl E canAll utf16 s src c else checkEncRaw E utf16 s src c
       match r with
       | none => s!"call#{i}: not admissible (n={c.n} cap={c.cap} last={c.last} impl={c.res} read={c.read} bytes={c.bytes.length} hp={c.hasPending})"
